@@ -54,13 +54,13 @@ def run(rep):
         raise Machinery("enumeration too small: %d bodies %d shapes" % (len(bodies), len(shapes)))
     bodies.sort(key=lambda c: bname(c["b"]))
     rep.spaces.append({"space": "bodies: inner x exit x enclosure x place (valid combinations)", "cases": len(bodies), "complete": True})
-    rep.spaces.append({"space": "recursion shapes x M", "cases": len(shapes), "complete": True})
+    rep.spaces.append({"space": "recursion shapes x M x time limit set/unset", "cases": len(shapes), "complete": True})
     ns = [1, 30, 200] if quick else [1, 50, 1000]
     cases = []
     for i, c in enumerate(bodies):
         cases.append({"id": "b%d" % i, "kind": "body", "b": c["b"], "ns": ns, "m": BODY_M})
     for i, c in enumerate(shapes):
-        cases.append({"id": "s%d" % i, "kind": "shape", "s": c["s"], "m": c["m"]})
+        cases.append({"id": "s%d" % i, "kind": "shape", "s": c["s"], "m": c["m"], "tl": c["tl"]})
     # bytecode export in chunks
     chunk = 40
     for i in range(0, len(bodies), chunk):
@@ -110,7 +110,7 @@ def run(rep):
             elif len(rep.samples) < 3:
                 rep.sample({"body": name, "src": r["src"][:300], "runs": [{"n": x["n"], "o": x["o"], "edges": x["edges"][:3]} for x in r["runs"]]})
         else:
-            name = "%s(M=%d)" % (c["s"], c["m"])
+            name = "%s(M=%d%s)" % (c["s"], c["m"], "" if c["tl"] else ",no time limit")
             if v["v"] != "pass":
                 rep.mismatch(name, {"verdict": v["v"], "outcome": r["o"], "info": r["info"], "levels": r["levels"]})
             elif c["s"] in ("forEach", "self") and len(rep.samples) < 6:
